@@ -92,23 +92,25 @@ Definition resolve_args (rec : list (str * keypath) -> str -> pv -> res pv) (sta
 
 (** resolve_foreign_key_inner: lookup in [L]; an explicit default restarts once in the locale the
     inherits walk designates ([n] bounds the restarts: the walk never returns a locale whose value is
-    an explicit default, except the default locale itself, which is an error) *)
+    an explicit default, except the default locale itself, which is an error).
+    [A]: the locale the foreign key is written in; its arguments are resolved there, wherever the
+    target value is taken from (the code before the repair resolved them in [L]: see [look_old]). *)
 Fixpoint look (rec : list (str * keypath) -> str -> pv -> res pv) (n : nat) (stack : list (str * keypath))
-         (target : keypath) (args : list (str * pv)) (L : str) : res pv :=
+         (target : keypath) (args : list (str * pv)) (A L : str) : res pv :=
   match get_value_at vals L target with
   | None => Err E_MissingForeignKey
   | Some NDefault =>
       if str_eqb L dflt then Err E_ExplicitDefaultInDefault
       else match n with
            | O => OutOfFuel
-           | S n' => look rec n' stack target args (walk (S (length inherits)) [L] L target)
+           | S n' => look rec n' stack target args A (walk (S (length inherits)) [L] L target)
            end
-  | Some (NSub _) => bind (resolve_args rec stack L args) (fun _ => Err E_InvalidForeignKey)
+  | Some (NSub _) => bind (resolve_args rec stack A args) (fun _ => Err E_InvalidForeignKey)
   | Some (NVal T) =>
       if on_stack L target stack then Err E_RecursiveForeignKey
       else
         bind (rec ((L, target) :: stack) L T) (fun T' =>
-        bind (resolve_args rec stack L args) (fun args' => Ok (populate args' T')))
+        bind (resolve_args rec stack A args) (fun args' => Ok (populate args' T')))
   end.
 
 (** resolve_foreign_key on a value: every foreign key replaced by the populated target value.
@@ -123,7 +125,40 @@ Fixpoint resolve (fuel : nat) (stack : list (str * keypath)) (L : str) (v : pv) 
       | PBloc l =>
           bind (fold_right (fun x acc => bind (resolve f stack L x) (fun x' => bind acc (fun r => Ok (x' :: r)))) (Ok []) l)
                (fun l' => Ok (PBloc l'))
-      | PForeign ns p args => look (resolve f) 2 stack (ns, p) args L
+      | PForeign ns p args => look (resolve f) 2 stack (ns, p) args L L
+      end
+  end.
+
+(** the code before the repair: after an explicit default the arguments were resolved in the locale
+    the value is inherited from *)
+Fixpoint look_old (rec : list (str * keypath) -> str -> pv -> res pv) (n : nat) (stack : list (str * keypath))
+         (target : keypath) (args : list (str * pv)) (L : str) : res pv :=
+  match get_value_at vals L target with
+  | None => Err E_MissingForeignKey
+  | Some NDefault =>
+      if str_eqb L dflt then Err E_ExplicitDefaultInDefault
+      else match n with
+           | O => OutOfFuel
+           | S n' => look_old rec n' stack target args (walk (S (length inherits)) [L] L target)
+           end
+  | Some (NSub _) => bind (resolve_args rec stack L args) (fun _ => Err E_InvalidForeignKey)
+  | Some (NVal T) =>
+      if on_stack L target stack then Err E_RecursiveForeignKey
+      else
+        bind (rec ((L, target) :: stack) L T) (fun T' =>
+        bind (resolve_args rec stack L args) (fun args' => Ok (populate args' T')))
+  end.
+Fixpoint resolve_old (fuel : nat) (stack : list (str * keypath)) (L : str) (v : pv) : res pv :=
+  match fuel with
+  | O => OutOfFuel
+  | S f =>
+      match v with
+      | PLit _ | PVar _ _ => Ok v
+      | PComp k i => bind (resolve_old f stack L i) (fun i' => Ok (PComp k i'))
+      | PBloc l =>
+          bind (fold_right (fun x acc => bind (resolve_old f stack L x) (fun x' => bind acc (fun r => Ok (x' :: r)))) (Ok []) l)
+               (fun l' => Ok (PBloc l'))
+      | PForeign ns p args => look_old (resolve_old f) 2 stack (ns, p) args L
       end
   end.
 End Resolve.
@@ -176,6 +211,16 @@ Definition final_value (vals : values) (dflt : str) (inherits : list (str * str)
   | NSub _ => Ok None
   | NVal v =>
       bind (resolve vals dflt inherits 200 [(L, (ns, path))] L v) (fun r =>
+      bind (reduce r) (fun r' => Ok (Some r')))
+  end.
+
+Definition final_value_old (vals : values) (dflt : str) (inherits : list (str * str)) (ns : option str)
+           (L : str) (path : list str) (n : node) : res (option pv) :=
+  match n with
+  | NDefault => Ok None
+  | NSub _ => Ok None
+  | NVal v =>
+      bind (resolve_old vals dflt inherits 200 [(L, (ns, path))] L v) (fun r =>
       bind (reduce r) (fun r' => Ok (Some r')))
   end.
 
@@ -244,7 +289,7 @@ Fixpoint xdenote (fuel : nat) (L : str) (items : list xitem) : option (list piec
                                    | Some r =>
                                        match a with
                                        | XALit l => Some ((s_var_ ++ k, [PcText (lit_display l)]) :: r)
-                                       | XAStr its => match xdenote f L' its with Some d => Some ((s_var_ ++ k, pc_norm d) :: r) | None => None end
+                                       | XAStr its => match xdenote f L its with Some d => Some ((s_var_ ++ k, pc_norm d) :: r) | None => None end
                                        end
                                    end) (Some []) args in
                     match args' with Some a => Some (subst_pieces a (pc_norm body)) | None => None end
